@@ -602,4 +602,10 @@ def rule_worker_panics(ctx):
     ctx.count("worker_panic_sites", n)  # no floor: removing a panic site is an improvement
 
 
-RULES = [rule_flow_mono, rule_status_tables, rule_once, rule_bytes, rule_flow_err, rule_names, rule_worker_panics]
+def rule_cli_flags(ctx):
+    """--no-proof-search and --no-timing are plain presence flags (a verdict is printed exactly when the search was not switched off)"""
+    from .. import collect as _collect
+    _collect.check_cli_flags(ctx, "CLI", ctx.facts, ["no_proof_search", "no_timing"])
+
+
+RULES = [rule_flow_mono, rule_status_tables, rule_once, rule_bytes, rule_flow_err, rule_names, rule_worker_panics, rule_cli_flags]
